@@ -400,11 +400,18 @@ impl C19 {
     fn make_case(&self, seed: u64) -> QCase {
         let mut k = Rng::stream(seed, 1);
         let mut w = Rng::stream(seed, 2);
-        let n = 1 + k.below(30) as usize;
+        let mut n = 1 + k.below(30) as usize;
         let mut ops = vec![];
         let mut next_id = 0u128;
         let mut known: Vec<IdS> = vec![];
         let ts_mode = k.below(3);
+        // ids in pairs with the same 128 bits (one UUID, one ULID; the nil id included)
+        let twins = k.chance(1, 4);
+        // a few long programs: the ticket lanes grow past a queue segment (31 entries) and the
+        // counters past 255
+        if k.chance(1, 32) {
+            n = 60 + k.below(400) as usize;
+        }
         for i in 0..n {
             let r = w.below(100);
             let op = if r < 40 || known.is_empty() {
@@ -412,9 +419,16 @@ impl C19 {
                     *w.pick(&known) // re-push (valid only if currently absent; runner skips otherwise)
                 } else {
                     next_id += 1;
-                    IdS {
-                        ulid: w.chance(1, 2),
-                        v: next_id,
+                    if twins {
+                        IdS {
+                            ulid: next_id % 2 == 0,
+                            v: (next_id - 1) / 2,
+                        }
+                    } else {
+                        IdS {
+                            ulid: w.chance(1, 2),
+                            v: next_id,
+                        }
                     }
                 };
                 if !known.contains(&id) {
